@@ -306,7 +306,7 @@ def gen_valid(rng):
     spec = []
     for i in range(n):
         sp = {'cls': rng.choice(POOL[:10]) if rng.random() < 0.92 else rng.choice(POOL[10:])}
-        if rng.random() < 0.35: sp['id'] = rng.choice(['a', 'b', 'cam', f'f{i}', 'Util', 'Util1', 'my-id', 'x.y', 'Util-2', 'a-2'])
+        if rng.random() < 0.35: sp['id'] = rng.choice(['a', 'b', 'cam', f'f{i}', 'Util', 'Util1', 'my-id', 'x.y', 'Util-2', 'a-2', 'tcp', 'ipc', 'http', 'file'])      # ids may look like schemes
         spec.append(sp)
     names = [sp.get('id') or cls_info(sp['cls'])['name'] for sp in spec]
     cnt = Counter(cls_info(sp['cls'])['name'] for sp in spec if 'id' not in sp)
